@@ -132,12 +132,22 @@ def run(tier, seed):
     if af:
         chk.sample({"kind": "alloc-fault", "fail_nth_allocation": af[0]["cfg"]["allocfail0"], "history": af[0]["h"]})
     run_batch(chk, exe, af, "allocfail")
-    chk.cov["fault_runs"] = {"plain": len(plain), "rejected_calls": len(bad), "alloc_faults": len(af)}
+    # (d) the evbuffer API with locking enabled on every buffer (Evbuffer.tla histories: file segments whose lazy
+    #     materialisation fails, references, buffer references, moves, callbacks, n-th allocation failing)
+    from checks import evbuffer_common as evb
+    exe2, sc2 = evb.lock_scenarios(seed, q)
+    if len(sc2) < 50:
+        raise vkit.InfraError("too few evbuffer lock scenarios")
+    for s in sc2:
+        chk.count_case(["evbuffer", s["cfg"].get("failn", 0)] + s["h"], True)
+    chk.sample({"kind": "evbuffer", "history": sc2[0]["h"]})
+    run_batch(chk, exe2, sc2, "evbuffer")
+    chk.cov["fault_runs"] = {"plain": len(plain), "rejected_calls": len(bad), "alloc_faults": len(af), "evbuffer": len(sc2)}
     chk.cov["rule"] = ("EventCore histories (TLC simulation) executed with recording lock callbacks: as generated, with calls the API rejects / "
                        "that fail in the backend inserted (regular-file fd -> epoll EPERM, bad fd, EV_SIGNAL|EV_READ, EV_PERSIST once-events, NULL "
                        "base), and with the n-th allocation failing for every n; each recorded trace (lock/unlock/trylock/condwait, API "
                        "enter/return, callback enter/exit) is validated by TLC against Locks.tla. distinct = distinct (fault, history) pairs.")
     chk.assumptions += ["single thread: the discipline is checked per call, blocking of other threads follows from a leaked lock",
-                        "only API calls reachable from the EventCore driver (reactor core) are bracketed so far",
+                        "API calls of the reactor core (EventCore driver) and of evbuffer (Evbuffer driver) are bracketed; evbuffer callbacks run under the buffer lock by design and are not bracketed",
                         "invalid arguments are limited to ones the API is coded to reject (no undefined behaviour)"]
     return chk.finish()
